@@ -24,6 +24,39 @@ def load_all_solvor():
     return [m for n, m in list(sys.modules.items()) if (n == "solvor" or n.startswith("solvor.")) and m is not None]
 
 
+def _accepts_same_calls(orig, new):
+    """True if the wrapper `new` (written against the signature the target had when the hook was written) can take
+    every call the target `orig` takes today.  A private helper that gained or lost a parameter is a refactoring, not a
+    defect: the hook is then left off (recorded in MISSING) instead of turning the drift into a TypeError inside the
+    solver."""
+    import inspect
+
+    try:
+        so, sn = inspect.signature(orig), inspect.signature(new)
+    except (TypeError, ValueError):
+        return True
+    P = inspect.Parameter
+    po = list(so.parameters.values())
+    if any(p.kind in (P.VAR_POSITIONAL, P.VAR_KEYWORD) for p in po):
+        pn = list(sn.parameters.values())
+        return all(any(q.kind is k for q in pn) for k in (P.VAR_POSITIONAL, P.VAR_KEYWORD) if any(p.kind is k for p in po))
+    pos = [p for p in po if p.kind in (P.POSITIONAL_ONLY, P.POSITIONAL_OR_KEYWORD)]
+    kwo = [p for p in po if p.kind is P.KEYWORD_ONLY]
+    req = lambda ps: [p for p in ps if p.default is P.empty]  # noqa: E731
+    shapes = [
+        ([0] * len(pos), {p.name: 0 for p in kwo}),  # everything, positionally where possible
+        ([0] * len([p for p in pos if p.kind is P.POSITIONAL_ONLY]),
+         {p.name: 0 for p in pos if p.kind is P.POSITIONAL_OR_KEYWORD} | {p.name: 0 for p in kwo}),  # everything, by name
+        ([0] * len(req(pos)), {p.name: 0 for p in req(kwo)}),  # only what is required
+    ]
+    for args, kwargs in shapes:
+        try:
+            sn.bind(*args, **kwargs)
+        except TypeError:
+            return False
+    return True
+
+
 def replace(module_name, attr, factory):
     m = mod(module_name)
     key = (module_name, attr)
@@ -37,6 +70,9 @@ def replace(module_name, attr, factory):
         _originals[key] = orig
     current = getattr(m, attr)
     new = factory(orig)
+    if callable(orig) and callable(new) and not _accepts_same_calls(orig, new):
+        MISSING.append(f"{module_name}.{attr} (signature changed: {_sig(orig)})")
+        return 0
     try:
         new.__wrapped_original__ = orig
     except Exception:
@@ -53,6 +89,15 @@ def replace(module_name, attr, factory):
     return n
 
 
+def _sig(f):
+    import inspect
+
+    try:
+        return str(inspect.signature(f))
+    except (TypeError, ValueError):
+        return "?"
+
+
 def original(module_name, attr):
     key = (module_name, attr)
     if key in _originals:
@@ -66,5 +111,8 @@ def replace_method(cls, attr, factory):
         return None
     orig = cls.__dict__[attr]
     new = factory(orig)
+    if callable(orig) and callable(new) and not _accepts_same_calls(orig, new):
+        MISSING.append(f"{cls.__name__}.{attr} (signature changed: {_sig(orig)})")
+        return None
     setattr(cls, attr, new)
     return orig
